@@ -379,11 +379,34 @@ class uncached:
                     if f is not None and hasattr(f, "__wrapped__") and hasattr(f, "cache_info"):
                         self.saved.append((mod, n, f))
                         setattr(mod, n, f.__wrapped__)
+        # any OTHER module-level cache (a cachetools.Cache object, or the `.cache` of a cachetools.cached function) is
+        # emptied while the fresh model is evaluated and put back afterwards (R6-C09-m1: a new process-wide cache)
+        self.emptied = []
+        try:
+            import cachetools
+            seen = set()
+            for mname, mod in list(sys.modules.items()):
+                if mname == "lymph" or mname.startswith("lymph."):
+                    for n, v in list(vars(mod).items()):
+                        for c in (v, getattr(v, "cache", None)):
+                            if isinstance(c, cachetools.Cache) and id(c) not in seen:
+                                seen.add(id(c))
+                                self.emptied.append((c, list(c.items())))
+                                c.clear()
+        except Exception:  # noqa: BLE001
+            pass
         return self
 
     def __exit__(self, *exc):
         for mod, n, f in self.saved:
             setattr(mod, n, f)
+        for c, items in self.emptied:
+            try:
+                c.clear()
+                for k, v in items:
+                    c[k] = v
+            except Exception:  # noqa: BLE001
+                pass
         return False
 
 
@@ -1059,6 +1082,14 @@ def gen_history(rng, classes, nops, coq):
     for sp in specs[1:]:
         if rng.random() < 0.5:               # same graph as the first instance: equal edges in different live models
             sp["graph"] = copy.deepcopy(specs[0]["graph"])
+            ents = sp["graph"]["entries"]
+            lnl_pos = [k for k, e in enumerate(ents) if e[0] == "lnl"]
+            if len(lnl_pos) >= 2 and rng.random() < 0.6:
+                # ... with the LNLs listed in another order (reversed, or the last one first): same arcs, other state order
+                order = [ents[k] for k in lnl_pos]
+                order = order[::-1] if rng.random() < 0.5 else order[-1:] + order[:-1]
+                for k, e in zip(lnl_pos, order):
+                    ents[k] = e
     pool = {}
     gss = [GState(sp, param_names(sp), pool) for sp in specs]
     for g_ in gss:
